@@ -316,6 +316,8 @@ class ASTRewriter(ast.NodeTransformer):
         elif isinstance(node.value, ast.Name) and node.value.id in self.env:
             self.env.copy_type(node.value.id, target)
         elif isinstance(node.value, ast.Tuple) or isinstance(node.value, ast.List):
+            # The type (and length) is the one of the new value
+            self.env.remove(target)
             self.env.set_constant(target, self.visit(node.value))
         else:
             self.env.set_type(target, "Unknown")
